@@ -11,7 +11,8 @@ parsed pairs (R13.5).  Not decided: that replace/linearize/factor commute with e
 import ast
 
 from sa import AnalysisError, scopes
-from sa.astutil import dotted, src, stmt_text, params, find_stmts, calls_in, method_name, walk_no_nested, const
+from sa.pattern import pmatch, pfind
+from sa.astutil import dotted, src, stmt_text, params, find_stmts, calls_in, method_name, walk_no_nested, const, deep_resolved
 from sa.guards import paths_to, enclosing_conditions, decompose
 
 MECHANISMS = {
@@ -271,9 +272,8 @@ def check_announced(model, rep):
     calls = [x for x in calls_in(lower.node) if src(x.func) == 'evaluable.replace_arguments']
     ok = len(calls) == 1 and len(calls[0].args) == 2
     if ok:
-        second = calls[0].args[1]
-        defs = [s for s in find_stmts(lower.body, lambda s: isinstance(s, ast.Assign)) if src(s.targets[0]) == src(second)]
-        ok = bool(defs) and 'self._replacements.items()' in src(defs[0].value) and 'without_points' in src(defs[0].value)
+        # the substituted table, whatever it is called: every parsed replacement, lowered without point axes, under its own name
+        ok = pmatch('{N_: V_.lower(args.without_points) for N_, V_ in self._replacements.items()}', deep_resolved(lower.node, calls[0].args[1])) is not None
     rep.ob('R13.5', lower.key, lower.where(), ok, 'lower() substitutes exactly the parsed replacements, lowered without point axes' if ok else
            '_Replace.lower does not substitute self._replacements lowered with args.without_points', statement='lower-substitutes')
     # the announced table: unreplaced = arguments of arg minus keys of self._replacements, joined with the replacements' arguments
@@ -368,20 +368,22 @@ def check_monomial_ravel(model, rep, rule='R13.7'):
     from sa.algebra import Poly, Unsupported
     from sa.flatindex import Exec, row_major, symbols, product
     f = model.func('evaluable:Monomial._derivative')
-    blocks = [b for b in ast.walk(f.node) if isinstance(b, ast.If) and src(b.test) == 'arg.ndim']
+    # the argument being differentiated to: `arg` or, when it is not held in a local, self.args[iarg]
+    ARG = ('arg', 'self.args[iarg]')
+    blocks = [b for b in ast.walk(f.node) if isinstance(b, ast.If) and src(b.test) in tuple(a + '.ndim' for a in ARG)]
     if len(blocks) != 1:
         raise AnalysisError('Monomial._derivative: the `if arg.ndim:` block was not found')
     body = blocks[0].body
     last = body[-1]
     infl = [c for c in ast.walk(last) if isinstance(c, ast.Call) and src(c.func) == 'Inflate' and len(c.args) == 3]
     unr = [c for c in ast.walk(last) if isinstance(c, ast.Call) and src(c.func) == 'unravel']
-    if len(infl) != 1 or len(unr) != 1 or src(unr[0].args[-1]) != 'arg.shape':
+    if len(infl) != 1 or len(unr) != 1 or src(unr[0].args[-1]) not in tuple(a + '.shape' for a in ARG):
         raise AnalysisError('Monomial._derivative: unravel(Inflate(Diagonalize(m), index, length), -1, arg.shape) was not found')
     bad = None
     try:
         for n in range(1, 5):
             i, sh = symbols('i', n), symbols('s', n)
-            ex = Exec({}, binder=lambda t, i=i, sh=sh: list(i) if t == 'self.indices[iarg]' else list(sh) if t == 'arg.shape' else None)
+            ex = Exec({}, binder=lambda t, i=i, sh=sh: list(i) if t == 'self.indices[iarg]' else list(sh) if t in ('arg.shape', 'self.args[iarg].shape') else None)
             ex.run(body[:-1])
             idx, length = ex.num(ex.ev(infl[0].args[1])), ex.num(ex.ev(infl[0].args[2]))
             if not idx == row_major(i, sh):
